@@ -22,6 +22,7 @@ import tempfile
 
 sys.path.insert(0, os.path.dirname(os.path.dirname(os.path.abspath(__file__))))
 from vf import evidence, tlc, use_repo  # noqa: E402
+from vf.memtls import CertFiles  # noqa: E402
 
 use_repo()
 from nauyaca.server.config import ServerConfig  # noqa: E402
@@ -89,6 +90,94 @@ def decide_config(enabled, allow, deny, default, peer, root):
     return "admit" if ok else "refuse53"
 
 
+def load_config(enabled, allow, deny, default, root, cert=None):
+    from pathlib import Path
+    text = toml_config(enabled, allow, deny, default, root)
+    if cert is not None:
+        text = text.replace("[server]\n", '[server]\ncertfile = "%s"\nkeyfile = "%s"\n' % (cert.certfile, cert.keyfile), 1)
+    fd, path = tempfile.mkstemp(prefix="vf-acl-", suffix=".toml")
+    with os.fdopen(fd, "w") as f:
+        f.write(text)
+    try:
+        return ServerConfig.from_toml(Path(path))
+    finally:
+        os.unlink(path)
+
+
+_LOOP = None
+
+
+def decide(component, peer):
+    """One decision of a (long-lived) AccessControl instance; None = the server runs without access control."""
+    global _LOOP
+    if component is None:
+        return "admit"
+    if _LOOP is None:
+        _LOOP = asyncio.new_event_loop()
+    ok, resp = _LOOP.run_until_complete(component.process_request("gemini://h/", peer, None))
+    if not ok and resp != "53 Access denied\r\n":
+        return "bad:%r" % (resp,)
+    return "admit" if ok else "refuse53"
+
+
+class Assembled:
+    """The server the real start_server assembles from a configuration (protocol factory captured at create_server):
+    one instance answers many connections from arbitrary peer addresses."""
+
+    def __init__(self, cfg):
+        from nauyaca.server import server as srv
+        from vf.vloop import VLoop
+        self.loop = VLoop()
+        asyncio.set_event_loop(self.loop)
+        captured = {}
+
+        class _Srv:
+            async def __aenter__(self):
+                return self
+
+            async def __aexit__(self, *a):
+                return False
+
+            async def serve_forever(self):
+                await asyncio.sleep(10 ** 9)
+
+        async def fake_create_server(factory, *a, **kw):
+            captured["factory"] = factory
+            return _Srv()
+
+        self.loop.create_server = fake_create_server
+        self.task = self.loop.create_task(srv.start_server(cfg, access_control_config=cfg.get_access_control_config(),
+                                                           enable_rate_limiting=False, log_level="CRITICAL"))
+        self.loop.run_idle()
+        if "factory" not in captured:
+            raise tlc.TLCError("start_server did not reach create_server: %r" % (self.task,))
+        self.factory = captured["factory"]
+
+    def decide(self, peer):
+        from vf.transports import FakeTransport
+        asyncio.set_event_loop(self.loop)
+        proto = self.factory()
+        tr = FakeTransport(self.loop, proto, peername=(peer, 4000) if ":" not in peer else (peer, 4000, 0, 0))
+        self.loop.call(proto.connection_made, tr)
+        self.loop.call(tr.feed, b"gemini://localhost/\r\n")
+        self.loop.run_idle()
+        status = bytes(tr.wire[:2])
+        if not tr.lost and tr.pending_lost is not None:
+            self.loop.call(tr.deliver_lost)
+        if status == b"53":
+            return "refuse53" if bytes(tr.wire) == b"53 Access denied\r\n" else "bad:%r" % bytes(tr.wire[:40])
+        return "admit" if status in (b"20", b"51") else "bad:%r" % bytes(tr.wire[:40])
+
+    def close(self):
+        try:
+            self.task.cancel()
+            self.loop.run_idle()
+        except Exception:
+            pass
+        asyncio.set_event_loop(None)
+        self.loop.close()
+
+
 def case_lists(pol, k, off, bg, bare):
     allow = [real_net(n["fam"], n["base"], n["len"], k, off, bg, bare) for n in sorted(pol["allow"], key=repr)]
     deny = [real_net(n["fam"], n["base"], n["len"], k, off, bg, bare) for n in sorted(pol["deny"], key=repr)]
@@ -122,43 +211,72 @@ def main(pid="C09"):
             cases = cases[:120000]
         n = 0
         distinct = set()
+        # one policy = one running server: every address of the space is decided by the SAME component instance and the
+        # SAME assembled chain, in shuffled order and then once more (a decision must not depend on earlier ones)
+        by_pol = {}
         for st in cases:
-            pol, addr, want = st["pol"], st["addr"], st["out"]
+            by_pol.setdefault(repr(sorted(st["pol"].items(), key=repr)), []).append(st)
+        srv_cert = CertFiles("ec", "localhost")
+        groups = list(by_pol.values())
+        for gi, group in enumerate(groups):
+            pol = group[0]["pol"]
             grey = pol["allowSet"] and not pol["allow"]
             offs4 = [0, 32 - k, rnd.randint(1, 32 - k - 1)]
-            offs6 = [0, 128 - k, rnd.randint(1, 128 - k - 1)]
+            offs6 = [0, 128 - k, rnd.randint(1, 128 - k - 1), rnd.randint(65, 128 - k - 1)]
             for j in range(3 if thorough else 2):
-                off = {4: offs4[j], 6: offs6[j]}
+                off = {4: offs4[j], 6: offs6[j] if rnd.random() < 0.6 else offs6[3]}
                 bg = {4: rnd.getrandbits(32), 6: rnd.getrandbits(128)}
                 bare = rnd.random() < 0.5
-                # each family embedded at its own offset
                 allow = [real_net(x["fam"], x["base"], x["len"], k, off[x["fam"]], bg, bare) for x in sorted(pol["allow"], key=repr)]
                 deny = [real_net(x["fam"], x["base"], x["len"], k, off[x["fam"]], bg, bare) for x in sorted(pol["deny"], key=repr)]
                 allow_l = allow if pol["allowSet"] else None
                 deny_l = deny if pol["denySet"] else None
-                peer = real_addr(addr["fam"], addr["bits"], k, off[addr["fam"]], bg)
-                got_cfg = decide_config(pol["enabled"], allow_l, deny_l, pol["default"], peer, root)
-                n += 1
-                distinct.add((repr(sorted(pol.items(), key=repr)), repr(addr)))
-                if got_cfg != want and not grey:
-                    rep.violation({"layer": "config", "enabled": pol["enabled"], "allowSet": pol["allowSet"],
-                                   "denySet": pol["denySet"], "default": pol["default"], "want": want},
-                                  "TOML policy enabled=%s allow=%s deny=%s default_allow=%s peer=%s: server %s, property says %s" % (
-                                      pol["enabled"], allow_l, deny_l, pol["default"], peer, got_cfg, want),
-                                  {"pol": repr(pol), "addr": repr(addr), "off": off})
-                if pol["enabled"] and not grey:
-                    # the component itself, as the property states it (no configuration layer)
-                    got = decide_component(allow_l, deny_l, pol["default"], peer)
-                    comp_want = "admit" if _admit(pol, addr, k) else "refuse53"
-                    n += 1
-                    if got != comp_want:
-                        rep.violation({"layer": "component", "allowSet": pol["allowSet"], "denySet": pol["denySet"],
-                                       "default": pol["default"], "want": comp_want},
-                                      "AccessControl allow=%s deny=%s default_allow=%s peer=%s: %s, property says %s" % (
-                                          allow_l, deny_l, pol["default"], peer, got, comp_want), None)
-                if n % 9973 < 2:
-                    rep.sample({"toml_policy": {"enabled": pol["enabled"], "allow_list": allow_l, "deny_list": deny_l,
-                                                "default_allow": pol["default"]}, "peer": peer, "decision": got_cfg})
+                cfg = load_config(pol["enabled"], allow_l, deny_l, pol["default"], root, srv_cert)
+                acc = cfg.get_access_control_config()
+                comp_cfg = AccessControl(acc) if acc else None
+                comp = AccessControl(AccessControlConfig(allow_list=allow_l, deny_list=deny_l, default_allow=pol["default"])) \
+                    if (pol["enabled"] and not grey) else None
+                asm = Assembled(cfg) if (thorough or (gi + j) % 3 == 0) else None
+                try:
+                    order = list(group) + list(group)
+                    rnd.shuffle(order)
+                    for st in order:
+                        addr, want = st["addr"], st["out"]
+                        peer = real_addr(addr["fam"], addr["bits"], k, off[addr["fam"]], bg)
+                        distinct.add((repr(sorted(pol.items(), key=repr)), repr(addr)))
+                        got_cfg = decide(comp_cfg, peer)
+                        n += 1
+                        if got_cfg != want and not grey:
+                            rep.violation({"layer": "config", "enabled": pol["enabled"], "allowSet": pol["allowSet"],
+                                           "denySet": pol["denySet"], "default": pol["default"], "want": want},
+                                          "TOML policy enabled=%s allow=%s deny=%s default_allow=%s peer=%s: server %s, property says %s" % (
+                                              pol["enabled"], allow_l, deny_l, pol["default"], peer, got_cfg, want),
+                                          {"pol": repr(pol), "addr": repr(addr), "off": off})
+                        if comp is not None:
+                            got = decide(comp, peer)
+                            comp_want = "admit" if _admit(pol, addr, k) else "refuse53"
+                            n += 1
+                            if got != comp_want:
+                                rep.violation({"layer": "component", "allowSet": pol["allowSet"], "denySet": pol["denySet"],
+                                               "default": pol["default"], "want": comp_want},
+                                              "AccessControl allow=%s deny=%s default_allow=%s peer=%s (instance reused across peers): %s, property says %s" % (
+                                                  allow_l, deny_l, pol["default"], peer, got, comp_want), None)
+                        if asm is not None and not grey:
+                            got_srv = asm.decide(peer)
+                            n += 1
+                            rep.add("assembled_chain_cases")
+                            if got_srv != want:
+                                rep.violation({"layer": "start_server", "enabled": pol["enabled"], "allowSet": pol["allowSet"],
+                                               "denySet": pol["denySet"], "default": pol["default"], "want": want},
+                                              "server assembled by start_server from TOML enabled=%s allow=%s deny=%s default_allow=%s, peer %s: %s, property says %s" % (
+                                                  pol["enabled"], allow_l, deny_l, pol["default"], peer, got_srv, want), None)
+                        if n % 9973 < 2:
+                            rep.sample({"toml_policy": {"enabled": pol["enabled"], "allow_list": allow_l, "deny_list": deny_l,
+                                                        "default_allow": pol["default"]}, "peer": peer, "decision": got_cfg})
+                finally:
+                    if asm is not None:
+                        asm.close()
+        srv_cert.remove()
         rep.add("evaluations", n)
         rep.set("distinct_nontrivial", len(distinct))
         rep.add("traces_validated_against_impl", n)
